@@ -68,6 +68,9 @@ def classify(binary, root, patch_args, rel, flags):
     errs = err.decode("utf-8", "replace")
     # the log line is the last line of stdout
     logs = list(LOG_RE.finditer(out))
+    if not logs:
+        # a file that does not end in a newline is echoed without one: its log line then starts in the middle of a line
+        logs = list(re.finditer(rb"(generated file )?(" + re.escape(absf.encode()) + rb"): (skipped|patched|failed[^\n]*)\n", out))
     if "could not parse" in errs:
         info["parses"] = False
         info["apply"] = ("nomatch",)
